@@ -1301,8 +1301,9 @@ def mixed_dict_cases(g, quick):
                         kw = {}
                         try:     # composition (not for the int 0: /repo tests `if d.get("date")`, so the epoch given as an
                             # int is left undecoded and rejected - observed, reported, not a listed legacy encoding)
-                            if dv == 0 and dv is not False:
-                                raise ValueError("falsy int date"): the embedded date decodes like the standalone decoder's dictionary
+                            if isinstance(dv, int) and not isinstance(dv, bool) and dv == 0:
+                                raise ValueError("falsy int date")
+                            # the embedded date decodes like the standalone decoder's dictionary
                             from swh.model.model import TimestampWithTimezone
                             kw["w2"] = enc(_set_at(d, (), k, abstract(TimestampWithTimezone.from_dict(realize(dv)).to_dict())))
                         except Exception:
